@@ -30,8 +30,9 @@ def vname(m, st, v):
             return repr(t)
         if isinstance(t, Adt) and not t.fields:
             return '%s#%d' % (t.adt, t.variant)
-        # aggregate: name of the place
-        return 'place:%s%s' % (v.key[1] if isinstance(v.key, tuple) and v.key[0] == 'arg' else v.key, ''.join('.%s' % (p[2] if len(p) > 2 and p[2] is not None else p[1]) for p in v.path))
+        # aggregate: name of the place, in the same style as atom names ("self*.f00")
+        base = ('%s*' % v.key[1]) if isinstance(v.key, tuple) and v.key[0] == 'arg' else str(v.key)
+        return '%s%s' % (base, ''.join('.%s' % (p[2] if len(p) > 2 and p[2] is not None else p[1]) for p in v.path if p[0] != 'v'))
     if isinstance(v, Atom):
         return v.name
     if isinstance(v, Slice):
@@ -314,12 +315,40 @@ PATTERNS = [
 ]
 
 
+def codec_leaf(m, cfg, f, args, t):
+    """custom codec functions of the harness (`crate::codec::*`) are opaque leaves by the documented contract:
+    encode_with writes one item, decode_with reads one item, cbor_len returns its length, is_nil/nil are arbitrary"""
+    st = cfg.st
+    name = (f.get('rpath') or f.get('path')).split('::')[-1]
+    if name.startswith('enc_'):
+        emit(st, ('ENC', 'custom:' + name, vname(m, st, args[0])))
+        return ok(UNIT)
+    if name.startswith('len_'):
+        nm = 'LEN(%s)' % vname(m, st, args[0])
+        if nm not in st.ranges:
+            st.ranges[nm] = LEN_RANGE
+            st.symty[nm] = 'usize'
+        return Int.sym(nm)
+    if name.startswith('is_nil_'):
+        return Atom('is_nil(%s)' % vname(m, st, args[0]), {'s': 'bool', 'k': 'bool'})
+    if name.startswith('nil_'):
+        return Atom('nil_is_some(%s)' % name, ty_from_str('std::option::Option<mcv_schemas::Opaque>'))
+    if name.startswith('dec_'):
+        return decode_leaf_custom(m, cfg, f, args, t, name)
+    return NotImplemented
+
+
+def decode_leaf_custom(m, cfg, f, args, t, name):
+    return NotImplemented
+
+
 class L2Machine(Machine):
     def __init__(self, prog, overrides, leaf_crates=(), root_self=None, **kw):
         Machine.__init__(self, prog, prims=prims.P, overrides=overrides, **kw)
         self.leaf_crates = set(leaf_crates)
         self.root_self = root_self
         self.patterns = PATTERNS
+        self.max_len = 1 << 40
 
     def is_leaf_callee(self, f):
         """calls into other user (harness) types are leaves: their own expansion is analysed as its own root"""
@@ -331,6 +360,10 @@ class L2Machine(Machine):
 
     def call_fn(self, cfg, fr, f, args, dest, ret_bb, t):
         names = [f.get('rpath'), f.get('path')]
+        if any(n and '::codec::' in n and n.split('::')[0] in self.leaf_crates for n in names):
+            r = codec_leaf(self, cfg, f, args, t)
+            if r is not NotImplemented:
+                return self.apply_prim_result(cfg, r, dest, ret_bb, t)
         if not any(n in self.overrides or n in self.prims for n in names if n):
             for n in names:
                 if not n:
@@ -463,6 +496,10 @@ def items_len(m, st, events):
             ln = it[2]
             total = lin_add(lin_add(total, hl_term(m, st, ln), 1), ln, 1) if isinstance(ln, Int) else lin_add(total, hl_term(m, st, Atom('len?')), 1)
         elif k == 'ENC':
+            if (st.extra.get('known') or {}).get('is_nil(%s)' % it[2]) == 1:
+                # contract of Encode::is_nil / Decode::nil: a nil value is written as (one byte) null
+                total = lin_add(total, Int.const(1), 1)
+                continue
             nm = 'LEN(%s)' % it[2]
             if nm not in st.ranges:
                 st.ranges[nm] = LEN_RANGE
